@@ -69,6 +69,8 @@ func (p *MultilineAction) Do(event *pipeline.Event) pipeline.ActionResult {
 	if event.IsTimeoutKind() {
 		p.logger.Errorf("can't read next sequential event for k8s pod stream")
 		p.resetLogBuf()
+		// the rest of an oversize line isn't coming: the next event belongs to another line
+		p.skipNextEvent = false
 		return pipeline.ActionDiscard
 	}
 
